@@ -24,7 +24,11 @@ pub fn lines_of_records(recs: &[Rec], lay: &Layout) -> Vec<Vec<u8>> {
         let mut h = vec![if lay.fastq { b'@' } else { b'>' }];
         h.extend_from_slice(&r.id);
         if let Some(d) = &r.desc {
-            h.push(b' ');
+            // a description that starts with a tab is separated from the id by that tab alone ("id<TAB>tag:value", as tools
+            // that append tags to read names write it); any other description by a blank
+            if d.first() != Some(&b'\t') {
+                h.push(b' ');
+            }
             h.extend_from_slice(d);
         }
         lines.push(h);
